@@ -229,7 +229,7 @@ func keyFrom(seed uint64, label string) *bind.TransactOpts {
 
 func pow2(n uint) *big.Int { return new(big.Int).Lsh(big.NewInt(1), n) }
 
-func newEnv(keySeed uint64) *env {
+func newEnv(keySeed uint64, gasToken bool) *env {
 	e := &env{ctx: context.Background()}
 	e.user = keyFrom(keySeed, "user")
 	e.dep = keyFrom(keySeed, "deployer")
@@ -253,13 +253,19 @@ func newEnv(keySeed uint64) *env {
 	e.be.Commit()
 	bridgeABI, err := polygonzkevmbridgev2.Polygonzkevmbridgev2MetaData.GetAbi()
 	must(err, "bridge abi")
+	gasTokenAddr, gasTokenMeta := common.Address{}, []byte{}
+	if gasToken {
+		// a chain whose gas token is an ERC-20 of network 0: initialize() stores the address, network and metadata and deploys WETH
+		gasTokenAddr = common.HexToAddress("0x00000000000000000000000000000000c0ffee01")
+		gasTokenMeta = []byte("verif custom gas token metadata (name, symbol, decimals)")
+	}
 	initData, err := bridgeABI.Pack("initialize",
 		networkID,
-		common.Address{}, // gasTokenAddressMainnet
-		uint32(0),        // gasTokenNetworkMainnet
+		gasTokenAddr, // gasTokenAddressMainnet
+		uint32(0),    // gasTokenNetworkMainnet
 		calculatedGERAddr,
 		common.Address{}, // rollup manager
-		[]byte{},         // gasTokenMetadata
+		gasTokenMeta,     // gasTokenMetadata
 	)
 	must(err, "pack initialize")
 	e.baddr, _, _, err = transparentupgradableproxy.DeployTransparentupgradableproxy(e.dep, e.be.Client(), bridgeImpl, e.dep.From, initData)
@@ -496,7 +502,7 @@ type pending struct {
 }
 
 func runCase(in In) Out {
-	e := newEnv(in.KeySeed)
+	e := newEnv(in.KeySeed, in.GasToken)
 	defer e.be.Close()
 	out := Out{In: in, Env: Env{Bridge: hlib.Hex(e.baddr[:]), GER: hlib.Hex(e.gaddr[:]), User: hlib.Hex(e.user.From[:]), Token: hlib.Hex(e.token[:])}}
 	if v, err := e.bridge.BRIDGEVERSION(nil); err == nil {
